@@ -92,37 +92,55 @@ def main():
             continue
         try:
             if job['kind'] == 'trace':
-                out = run_unit_float(u, job['values'], jit=jit)
-                if out['outcome'] != 'done':
-                    results.append(dict(ok=False, skipped=out['outcome'] in ('assumption-failed',),
-                                        detail="outcome %s %s" % (out['outcome'], out.get('exc'))))
-                    continue
-                got = dict()
-                for n, v in out['observed']:
-                    got.setdefault(n, []).append(v)
                 exp = dict()
                 for n, v in job['observed']:
                     exp.setdefault(n, []).append(v)
-                bad = None
-                ncmp = 0
-                for n, vs in exp.items():
-                    gs = got.get(n)
-                    if gs is None:
-                        continue          # not observed in concrete mode
-                    if len(gs) != len(vs):
-                        bad = "observation %s: different count (control path differs)" % n
-                        break
-                    for a, b in zip(vs, gs):
-                        ncmp += 1
-                        if not (abs(a - b) <= 1e-6 * (abs(a) + abs(b) + 1)):
-                            bad = "observation %s: engine %r vs implementation %r" % (n, a, b)
-                            break
-                    if bad:
-                        break
-                if bad is None and ncmp == 0:
+
+                def compare(values):
+                    out = run_unit_float(u, values, jit=jit)
+                    if out['outcome'] != 'done':
+                        return None, "outcome %s %s" % (out['outcome'], out.get('exc')), out['outcome'], 0
+                    got = dict()
+                    for n, v in out['observed']:
+                        got.setdefault(n, []).append(v)
+                    bad, ncmp = None, 0
+                    for n, vs in exp.items():
+                        gs = got.get(n)
+                        if gs is None:
+                            continue          # not observed in concrete mode
+                        if len(gs) != len(vs):
+                            return False, "observation %s: different count (control path differs)" % n, 'done', ncmp
+                        for a, b in zip(vs, gs):
+                            ncmp += 1
+                            if not (abs(a - b) <= 1e-6 * (abs(a) + abs(b) + 1)):
+                                return False, "observation %s: engine %r vs implementation %r" % (n, a, b), 'done', ncmp
+                    return True, None, 'done', ncmp
+                ok, bad, outcome, ncmp = compare(job['values'])
+                if ok is None:
+                    results.append(dict(ok=False, skipped=outcome in ('assumption-failed',), detail=bad))
+                    continue
+                if ok and ncmp == 0:
                     results.append(dict(ok=False, skipped=True, detail='nothing comparable'))
                     continue
-                results.append(dict(ok=bad is None, detail=bad, compared=ncmp))
+                boundary = False
+                if not ok:
+                    # The solver's model often sits exactly ON a branch boundary (w == threshold, |r| == delta): float rounding
+                    # then takes the other branch.  The engine's path is realised by inputs arbitrarily close to the model,
+                    # so the trace counts as validated when a nudged input (relative 1e-9 .. 1e-6) follows it.
+                    for k in range(24):
+                        sig = [1e-9, 1e-8, 1e-7, 1e-6][k % 4]
+                        vals = {}
+                        for n, v in job['values'].items():
+                            try:
+                                f = float(Fraction(v)) if isinstance(v, str) else float(v)
+                                vals[n] = f + rng.gauss(0, 1) * sig * (abs(f) + 1.0)
+                            except Exception:
+                                vals[n] = v
+                        ok2, _, _, n2 = compare(vals)
+                        if ok2 and n2 > 0:
+                            ok, boundary = True, True
+                            break
+                results.append(dict(ok=bool(ok), detail=None if ok else bad, compared=ncmp, boundary=boundary))
                 continue
             # violation / known: direct replay first
             want_fid = job.get('finding')
